@@ -329,6 +329,19 @@ def gen_index():
         lost.append(("pyxEntryPos", "multitensor.pyx reshape((-1, nof_groups)).T block not found"))
         out.append("def pyxEntryPos : Unit := ()\n")
 
+    # python: initial affinity built from the file (multitensor.pyx:272-281)
+    ma = re.search(r"if assortative:\s*\n\s*init_affinity = w_data\[:, 1:\]\.ravel\(\)", pyx)
+    mg = re.search(r"init_affinity = \(numpy\.diag\(l\) for l in w_data\[:, 1:\]\)\s*\n\s*init_affinity = numpy\.concatenate\(\[l\.ravel\(\) for l in init_affinity\]\)", pyx)
+    if ma and mg:
+        out.append("/-- multitensor.pyx: flat position of the value `d_g` of file row `row` in the start vector:\n"
+                   "`w_data[:, 1:].ravel()` (assortative) resp. `concatenate([numpy.diag(l).ravel() for l in w_data[:, 1:]])`\n"
+                   "(numpy row-major ravel and diag, modelled) -/\n"
+                   "def pyxInitPos (assortative : Bool) (nof_groups row g : Nat) : Nat :=\n"
+                   "  if assortative then row * nof_groups + g else row * (nof_groups * nof_groups) + (g * nof_groups + g)\n")
+    else:
+        lost.append(("pyxInitPos", "multitensor.pyx initial-affinity construction (ravel / numpy.diag) not found"))
+        out.append("def pyxInitPos : Unit := ()\n")
+
     out.append("end MT.Gen\n")
     write_if_changed("Index.lean", "\n".join(out))
 
